@@ -40,10 +40,10 @@ vars == <<phase, stream, intended, open, D, q, stack, parent, kids>>
 Item(k, lvl, cd, ty) == [k |-> k, lvl |-> lvl, cd |-> cd, ty |-> ty]
 Top(s) == s[Len(s)]
 Pop(s) == SubSeq(s, 1, Len(s) - 1)
-DocOpen == [id |-> 0, k |-> "doc", lvl |-> 0, ty |-> ""]
+DocOpen == [id |-> 0, k |-> "doc", lvl |-> 0, ty |-> "", d0 |-> 2]
 
 Closers == {"enve", "grpe"}
-Containers == {"sec", "envb", "grpb", "item"}
+Containers == {"sec", "envb", "grpb", "item", "decl"}
 
 Init == /\ phase = "gen" /\ stream = <<>> /\ intended = <<>> /\ open = <<DocOpen>> /\ D = 2
         /\ q = 1 /\ stack = <<>> /\ parent = <<>> /\ kids = <<>>
@@ -54,8 +54,13 @@ Add(it, par, newopen, newD) ==
     /\ open' = newopen /\ D' = newD
     /\ UNCHANGED <<phase, q, stack, parent, kids>>
 
-InBlockContext == Top(open).k \in {"doc", "sec", "envb", "item"}
-OnlySectionsOpen == \A i \in 1..Len(open) : open[i].k \in {"doc", "sec"}
+InBlockContext == Top(open).k \in {"doc", "sec", "envb", "item", "decl"}
+RECURSIVE StripDecls(_)
+StripDecls(o) == IF Top(o).k = "decl" THEN StripDecls(Pop(o)) ELSE o
+(* only sections are open, possibly with font declarations made directly in a section body on top *)
+OnlySectionsOpen == \A i \in 1..Len(open) : open[i].k \in {"doc", "sec", "decl"}
+NoListOpen == \A i \in 1..Len(open) : open[i].k # "item" /\ ~(open[i].k = "envb" /\ open[i].ty = "itemize")
+NDecls == Cardinality({i \in 1..Len(stream) : stream[i].k = "decl"})
 
 GWord == phase = "gen" /\ (Top(open).k = "envb" => Top(open).ty # "itemize")
          /\ Add(Item("word", CHARLVL, D, ""), Top(open).id, open, D)
@@ -67,30 +72,37 @@ GPar == phase = "gen" /\ InBlockContext /\ (Top(open).k = "envb" => Top(open).ty
 
 RECURSIVE CloseSecs(_, _)
 CloseSecs(o, l) == IF Top(o).k = "sec" /\ Top(o).lvl >= l THEN CloseSecs(Pop(o), l) ELSE o
+(* a font declaration (\bfseries, \itshape): an environment without an end; it pushes a context frame and holds
+   everything up to the end of the enclosing group / environment or the next sectioning command *)
+GDecl == /\ phase = "gen" /\ NoListOpen /\ NDecls < 2 /\ Len(open) < MaxDepth + 2
+         /\ Add(Item("decl", ENVLVL, D + 1, "decl"), Top(open).id,
+                Append(open, [id |-> Len(stream) + 1, k |-> "decl", lvl |-> ENVLVL, ty |-> "decl", d0 |-> D]), D + 1)
+
 GSec(l) == /\ phase = "gen" /\ OnlySectionsOpen /\ l \in 1..3
-           /\ LET o == CloseSecs(open, l)
+           /\ LET o == CloseSecs(StripDecls(open), l)
                   id == Len(stream) + 1
-              IN Add(Item("sec", l, D, ""), Top(o).id, Append(o, [id |-> id, k |-> "sec", lvl |-> l, ty |-> ""]), D)
+              IN Add(Item("sec", l, D, ""), Top(o).id, Append(o, [id |-> id, k |-> "sec", lvl |-> l, ty |-> "", d0 |-> D]), D)
 
 GEnvBegin(e) == /\ phase = "gen" /\ InBlockContext /\ (Top(open).k = "envb" => Top(open).ty # "itemize")
                 /\ Len(open) < MaxDepth + 1 /\ e \in {"quote", "itemize"}
                 /\ Add(Item("envb", ENVLVL, D + 1, e), Top(open).id,
-                       Append(open, [id |-> Len(stream) + 1, k |-> "envb", lvl |-> ENVLVL, ty |-> e]), D + 1)
+                       Append(open, [id |-> Len(stream) + 1, k |-> "envb", lvl |-> ENVLVL, ty |-> e, d0 |-> D]), D + 1)
 GItem == /\ phase = "gen"
          /\ \/ (Top(open).k = "envb" /\ Top(open).ty = "itemize")
             \/ (Top(open).k = "item")
          /\ LET o == IF Top(open).k = "item" THEN Pop(open) ELSE open IN
-            Add(Item("item", CHARLVL, D, ""), Top(o).id, Append(o, [id |-> Len(stream) + 1, k |-> "item", lvl |-> CHARLVL, ty |-> ""]), D)
+            Add(Item("item", CHARLVL, D, ""), Top(o).id, Append(o, [id |-> Len(stream) + 1, k |-> "item", lvl |-> CHARLVL, ty |-> "", d0 |-> D]), D)
 GEnvEnd == /\ phase = "gen"
-           /\ \/ (Top(open).k = "envb" /\ Top(open).ty = "quote" /\ stream[Len(stream)].k # "envb")
-              \/ (Top(open).k = "item" /\ stream[Len(stream)].k # "item")
-           /\ LET o == IF Top(open).k = "item" THEN Pop(open) ELSE open IN
-              Add(Item("enve", ENVLVL, D - 1, Top(o).ty), 0, Pop(o), D - 1)
+           /\ LET s == StripDecls(open) IN
+              /\ \/ (Top(s).k = "envb" /\ Top(s).ty = "quote" /\ stream[Len(stream)].k # "envb")
+                 \/ (Top(s).k = "item" /\ stream[Len(stream)].k # "item")
+              /\ LET o == IF Top(s).k = "item" THEN Pop(s) ELSE s IN
+                 Add(Item("enve", ENVLVL, Top(o).d0, Top(o).ty), 0, Pop(o), Top(o).d0)
 GGrpBegin == /\ phase = "gen" /\ Len(open) < MaxDepth + 1 /\ (Top(open).k = "envb" => Top(open).ty # "itemize")
              /\ Add(Item("grpb", CHARLVL, D + 1, ""), Top(open).id,
-                    Append(open, [id |-> Len(stream) + 1, k |-> "grpb", lvl |-> CHARLVL, ty |-> ""]), D + 1)
-GGrpEnd == /\ phase = "gen" /\ Top(open).k = "grpb"
-           /\ Add(Item("grpe", CHARLVL, D - 1, ""), 0, Pop(open), D - 1)
+                    Append(open, [id |-> Len(stream) + 1, k |-> "grpb", lvl |-> CHARLVL, ty |-> "", d0 |-> D]), D + 1)
+GGrpEnd == /\ phase = "gen" /\ Top(StripDecls(open)).k = "grpb"
+           /\ LET o == StripDecls(open) IN Add(Item("grpe", CHARLVL, Top(o).d0, ""), 0, Pop(o), Top(o).d0)
 
 (* the document is complete when only sections are open *)
 GDone == /\ phase = "gen" /\ OnlySectionsOpen /\ stream # <<>>
@@ -120,7 +132,7 @@ Run ==
        THEN PopFrame                                                                      \* end of input closes every open node
        ELSE CASE F.k = "doc" -> Absorb                                                    \* TeX.parse
               [] F.k = "sec" -> IF It.lvl <= F.lvl THEN PopFrame ELSE Absorb              \* SectionUtils.digest
-              [] F.k = "envb" ->                                                          \* Environment.digest
+              [] F.k \in {"envb", "decl"} ->                                                \* Environment.digest
                     IF It.k = "par" THEN Absorb
                     ELSE IF It.lvl < F.lvl THEN PopFrame
                     ELSE IF It.k = "enve" /\ It.ty = F.ty THEN (Consume /\ stack' = Pop(stack) /\ UNCHANGED <<parent, kids>>)
@@ -139,7 +151,7 @@ Run ==
 Finish == /\ phase = "run" /\ q > Len(stream) /\ Len(stack) = 1
           /\ phase' = "done" /\ UNCHANGED <<stream, intended, open, D, q, stack, parent, kids>>
 
-Next == GWord \/ GCmd \/ GPar \/ GEnvEnd \/ GItem \/ GGrpBegin \/ GGrpEnd \/ GDone \/ Run \/ Finish
+Next == GWord \/ GCmd \/ GPar \/ GDecl \/ GEnvEnd \/ GItem \/ GGrpBegin \/ GGrpEnd \/ GDone \/ Run \/ Finish
         \/ (\E l \in 1..3 : GSec(l)) \/ (\E e \in {"quote", "itemize"} : GEnvBegin(e))
 Spec == Init /\ [][Next]_vars
 
